@@ -16,6 +16,8 @@ def run(rep, tier, seed, replay):
         for m in vmism:
             if m["check"] in mine:
                 rep.violation(rt.cls_of(m), m)
+    # the iterative skipper as a transition system: exhaustive model check + every loop iteration of the real code validated
+    sk = rt.skip_trace_check(rep, tier, seed)
     vec, _ = rt.vectors(tier, "deep")
     sample = c.read_ndjson(vec)[0]
     sample = {"id": sample["id"], "t": sample["t"], "need": sample["need"], "bin": sample["bin"][:24]}
@@ -26,9 +28,15 @@ def run(rep, tier, seed, replay):
                 "budget Need(v) of spec/ThriftSkip.tla; skip() is run on {bin, binle, compact, unchecked (after read_field_begin), "
                 "async bin, async binle, async compact} with a trailer whose first byte is decoded next",
         "samples": [sample], "sets": stats, "exhaustive": False,
-        "states": 0, "transitions": 0,
+        "states": sk["model"]["distinct"], "transitions": sk["model"]["generated"],
+        "traces_validated_against_impl": sk["runs_validated"],
+        "iterative_skipper": {"model": sk["model"], "loop_iterations_validated": sk["events_validated"], "runs_validated": sk["runs_validated"],
+                              "rejections": sk["rejections"],
+                              "note": "spec/IterSkip.tla: one action per iteration of skip_till_depth's loop; MCIterSkip checks ExactOnDone / "
+                                      "NeverBehind / LenIsIndex / Terminates on the encodings of the whole universe and nesting up to 80; "
+                                      "IterSkipTrace validates the hook events (type, cursor, accounted length, pending stack) of the TLC "
+                                      "vectors and of seeded random trees"},
     }
-    rep.cov.pop("states"); rep.cov.pop("transitions")
     rep.assumptions = ["documented limit = MAXIMUM_SKIP_DEPTH (64) levels including the value itself; the iterative skipper of the "
                        "unchecked codec keeps its pending containers on the heap: beyond the limit a correct skip or DepthLimit is accepted"]
-    return "exploration"
+    return "model_checking"
